@@ -31,14 +31,15 @@ class SmGen(WorldGen):
     def vpar(self, v):
         return self.vbk[v]["parent"]
 
-    def ensure_side(self):
-        if self.side is None:
+    def ensure_side(self, anc=()):
+        """an ALT block that is NOT on the chain `anc` (a child of a0 with an empty body)"""
+        if self.side is None or self.side in anc:
             self.side = self.new_alt("a0")
             self.set_pd(self.side)
         return self.side
 
-    def ensure_unshown(self):
-        if self.unshown is None:
+    def ensure_unshown(self, anc=()):
+        if self.unshown is None or self.unshown in anc:
             self.unshown = self.new_alt("a0")
             self.set_pd(self.unshown)
         return self.unshown
@@ -147,12 +148,12 @@ class SmGen(WorldGen):
                 else:
                     t = self.make_atv(r.choice(old))
             if kind == "fork":
-                t = self.make_atv(self.ensure_side())
+                t = self.make_atv(self.ensure_side(anc))
             elif kind == "unkn":
-                t = self.make_atv(self.ensure_unshown())
+                t = self.make_atv(self.ensure_unshown(anc))
             elif kind == "nobop":
                 spacer = self.mine_vbk()
-                t = self.make_atv(r.choice(cands) if cands else self.ensure_side())
+                t = self.make_atv(r.choice(cands) if cands else self.ensure_side(anc))
                 drop_from = spacer
             self.bad[t] = kind
             if j < len(atvs):
@@ -235,6 +236,11 @@ class SmHistory(History):
         self.dead = set()     # subtrees removed from the instance; never shown again when payloads are planted:
         # re-accepting a removed FAILED_POP block and then a child header aborts in raiseValidity
         # (block_index.hpp:202) - a defect outside these properties, reported separately
+
+    def on(self, *words):
+        super().on(*words)
+        if words[0] == "cmp":
+            super().on("sm")     # lets the model resolve its score oracle (see ocaml/Pop_driver.ml)
 
     def show(self, aid, order="random"):
         if self.dead and any(x in self.dead for x in self.g.ancestry(aid)):
@@ -413,7 +419,7 @@ def model_script(lines, results, gens):
         n_aux += 1
         out.append("%s_x%d %s" % (pre, n_aux, s))
 
-    for l in lines:
+    for li, l in enumerate(lines):
         t = l.split()
         cid, op = t[0], t[1]
         res = results.get(cid)
@@ -451,7 +457,12 @@ def model_script(lines, results, gens):
             cmp_ids.append(cid)
         elif c == "cmp" and not res.startswith("SKIP"):
             known = t[4] in state["conn"]
-            out.append("%s cmp %s %s" % (cid, t[4] if known else "-", res))
+            exp = "-"
+            if li + 1 < len(lines):
+                n = lines[li + 1].split()
+                if n[1:] == ["on", "A", "sm"] and results.get(n[0]):
+                    exp = results[n[0]].replace(" ", "~")
+            out.append("%s cmp %s %s %s" % (cid, t[4] if known else "-", res, exp))
             cmp_ids.append(cid)
         elif c == "sm":
             out.append("%s sm" % cid)
